@@ -11,6 +11,8 @@ import VivModel.Lemmas.Topo
   respects every dependency chain however long and through whatever kind of resource.
 * `toGraph_wf`, `edge_iff_requirement`, `requirement_chain_is_path`, `dup_producer_rejected`,
   `producers_unique`, `initializers_once`, `iteration_*`: `ResourceManager` for every registration history.
+* `late_registration_ignored`, `graph_idempotent`: the cached graph – registrations after the first sort do not
+  change the order births are created in (what the code does, modelled as it is).
 * `*_declares`, `tracked_implicit`, `stream_depends_on_key_columns`, `value_depends_on_*`,
   `postSetup_declares`, `modifier_registers`, `modifier_resource_is_value_dependency`,
   `pipeline_object_*`: the implicit dependencies the registration services add (pipeline ← source and
@@ -299,6 +301,63 @@ theorem iteration_refused_iff_cycle (m : Manager) :
     iterNodes m (toGraph m) = none ↔ ∃ u, Path (toGraph m) u u := by
   rw [← refuses_iff_cycle _ (toGraph_wf m)]
   simp [iterNodes]
+
+/-! ### the graph is built once (initial creation and births share one order) -/
+
+theorem addResources_cache (m m' : Manager) (rtype : String) (names : List String) (producer : String)
+    (deps : List String) :
+    (addResources m rtype names producer deps = .ok m' → m'.cache = m.cache) ∧
+    (∀ e, addResources m rtype names producer deps = .error (e, m') → m'.cache = m.cache) := by
+  constructor
+  · intro h
+    simp only [addResources] at h
+    split at h
+    · cases h
+    · split at h
+      · cases h; rfl
+      · cases h
+  · intro e h
+    simp only [addResources] at h
+    split at h
+    · cases h; rfl
+    · split at h
+      · cases h
+      · cases h; rfl
+
+theorem graph_of_cached (m0 : Manager) (g : Graph) (h : m0.cache = some g) : (graph m0).2 = g := by
+  unfold graph; rw [h]
+
+/-- the order is computed once: after the first access of `graph` (the initial creation) every later
+registration – accepted or refused – leaves the graph the births are sorted by unchanged -/
+theorem late_registration_ignored (m : Manager) (l : List (String × List String × String × List String)) :
+    (graph (addAll (graph m).1 l)).2 = (graph m).2 := by
+  have hc : ∃ g, (graph m).1.cache = some g ∧ (graph m).2 = g := by
+    unfold graph
+    cases h : m.cache with
+    | some g => exact ⟨g, by simp [h], rfl⟩
+    | none => exact ⟨toGraph m, rfl, rfl⟩
+  obtain ⟨g, hg, hg2⟩ := hc
+  rw [hg2]
+  have key : ∀ (l : List (String × List String × String × List String)) (m0 : Manager),
+      m0.cache = some g → (addAll m0 l).cache = some g := by
+    intro l
+    induction l with
+    | nil => intro m0 h; exact h
+    | cons a rest ih =>
+      intro m0 h
+      obtain ⟨t, ns, p, ds⟩ := a
+      simp only [addAll]
+      cases hres : addResources m0 t ns p ds with
+      | ok m1 => exact ih m1 (((addResources_cache m0 m1 t ns p ds).1 hres).trans h)
+      | error em =>
+        obtain ⟨e, m1⟩ := em
+        exact ih m1 (((addResources_cache m0 m1 t ns p ds).2 e hres).trans h)
+  exact graph_of_cached _ g (key l (graph m).1 hg)
+
+/-- … and a second access returns the very same graph (initial creation and births see one order) -/
+theorem graph_idempotent (m : Manager) : (graph (graph m).1).2 = (graph m).2 := by
+  have := late_registration_ignored m []
+  simpa [addAll] using this
 
 /-! ### what the registration services declare (the implicit dependencies) -/
 
